@@ -43,7 +43,7 @@ def mandatory_bins(tier):
     b += ["key_trailing_zero_%d" % z for z in (1, 2, 3, 15)]
     b += ["crc_lo_00:cust", "crc_hi_00:cust", "crc_both_00:cust", "crc_lo_00:update", "crc_hi_00:update", "crc_both_00:update",
           "decryptors_all", "decryptors_single", "decryptors_partial", "pass_through_block", "encrypted_config_component", "customer_key_present", "customer_key_absent",
-          "version_00", "version_ff", "version_80", "code_all_zero", "code_ends_00", "config_blob_trailing_zero_padding", "key_all_zero", "ecc_distractor_decryptors_before_the_matching_one", "ecc_distractor_encryptors_on_write", "second_write_after_replacing_a_block_of_the_same_kind", "foreign_blocks_of_unknown_kind", "session_key_contains_customer_key", "file_name_instead_of_stream", "read_with_mac_check_off", "update_block_attributes_reassigned", "stream_positioned_after_other_content", "constructed_without_block_list_then_add_auth_block"]
+          "version_00", "version_ff", "version_80", "code_all_zero", "code_ends_00", "config_blob_trailing_zero_padding", "key_all_zero", "ecc_distractor_decryptors_before_the_matching_one", "ecc_distractor_encryptors_on_write", "second_write_after_replacing_a_block_of_the_same_kind", "foreign_blocks_of_unknown_kind", "session_key_contains_customer_key", "file_name_instead_of_stream", "read_with_mac_check_off", "update_block_attributes_reassigned", "stream_positioned_after_other_content", "constructed_without_block_list_then_add_auth_block", "encryptors_given_as_tuple", "encryptors_given_as_deque", "encryptors_given_as_dict_values", "several_encrypted_components"]
     return b
 
 
@@ -79,6 +79,15 @@ def check_case(ns, ctx, case, conf, key, specs, subsets):
     B = ns.bec2file
     rp = {"case": case.to_json(), "conf": [[k, v, c.hex()] for (k, v), c in conf.items()] if conf is not None else None, "key": key.hex(), "blocks": GB.spec_json(specs)}
     ctx.distinct(case.digest_parts(), conf, key, GB.spec_json(specs))
+    if (key[8] + len(specs)) % 3 == 0:
+        # further session-key encrypted components besides the configuration: first in the file, and (sometimes) between plain ones
+        extra = [MComp([(0xC3, b"\x02"), (0xC2, b"\x02")], ctx.rng.randbytes(ctx.rng.choice((5, 16, 33, 48))), None, True)]
+        if key[9] % 2:
+            extra.append(MComp([(0xC2, b"\x02"), (1, b"second")], ctx.rng.randbytes(ctx.rng.choice((1, 17, 64))), None, True))
+        for e_ in extra:
+            e_.declared = len(e_.blob)
+        case = G.Case(case.comments, [extra[0]] + list(case.comps) + extra[1:])
+        ctx.bin("several_encrypted_components")
     bf3 = G.build_real(ns, case)
     model_comps = list(case.comps)
     if conf is not None:
@@ -120,6 +129,7 @@ def check_case(ns, ctx, case, conf, key, specs, subsets):
         fd, path = tempfile.mkstemp(prefix="c02-", suffix=".bec2", dir=os.environ.get("VERIF_SCRATCH"))
         os.close(fd)
         ctx.bin("file_name_instead_of_stream")
+    wenc = as_container(ctx, wenc, key[6])
     try:
         f.write_file(path if path else buf, wenc)
         ctx.mon("write_file")
@@ -173,6 +183,7 @@ def _check_reads(ns, ctx, B, specs, subsets, key, text, path, has_ecc, distracto
             src.write(text)
             src.seek(start)
             ctx.bin("stream_positioned_after_other_content")
+        renc = as_container(ctx, renc, key[7] + len(subset))
         try:
             back = B.Bec2File.read_file(src, renc, cm)
             ctx.mon("read_file")
@@ -231,6 +242,27 @@ def _second_write(ns, ctx, B, f, specs, case, key, wenc, rp):
                 ctx.violation("second_write_after_block_replacement_reads_back_stale_or_wrong_blocks", {"got": got, "expected": want}, rp)
         except Exception as e:
             ctx.violation("second_write_after_block_replacement_not_readable", {"exc": fmt_exc(e)}, rp)
+
+
+def as_container(ctx, encs, sel):
+    """the (de)cryptors in another re-iterable container type than a list"""
+    import collections
+
+    encs = list(encs)
+    k = sel % 5
+    if k == 0:
+        return encs
+    if k == 1:
+        ctx.bin("encryptors_given_as_tuple")
+        return tuple(encs)
+    if k == 2:
+        ctx.bin("encryptors_given_as_deque")
+        return collections.deque(encs)
+    if k == 3:
+        ctx.bin("encryptors_given_as_dict_values")
+        return {i: e for i, e in enumerate(encs)}.values()
+    ctx.bin("encryptors_given_as_tuple")
+    return tuple(encs)
 
 
 def classify_exc(e):
